@@ -43,6 +43,10 @@ def decodeLeafD (tn s : String) : Except DErr D :=
     match unb64 s with
     | some bs => .ok (.bin bs)
     | none => .error .badValue
+  else if tn = "Timespan" then
+    match parseSpan s with
+    | some ns => .ok (.leaf .ts (printSpan ns))
+    | none => .error .badValue
   else
     match kindOfTypeName tn with
     | some k => .ok (.leaf k.canon s)
@@ -158,6 +162,7 @@ def V.noRes : V → Bool
   | .arr _ vs => noResList vs
   | .sens _ v => v.noRes
   | .obj _ tn _ as => isObjType tn && noResAttrs as
+  | .leaf _ k enc _ => canonLeaf k enc          -- a Timespan payload is the default format of some duration
   | _ => true
 def noResList : List V → Bool
   | [] => true | v :: vs => v.noRes && noResList vs
@@ -169,27 +174,29 @@ def noResAttrs : List (String × V) → Bool
 end
 
 mutual
-/-- already Data: scalars, strings, arrays, string-keyed hashes -/
-def V.isData : V → Bool
+/-- already Data: scalars, strings, arrays, string-keyed hashes — and Binary when the consumer takes Binary as it is
+    (`bin`): the serializer hands it over untouched whatever rich_data says -/
+def V.isData (bin : Bool) : V → Bool
   | .undef => true | .bool _ => true | .int _ => true | .flt _ => true | .str _ => true
-  | .arr _ vs => isDataList vs
-  | .hash _ es => allStrKeys es && isDataPairs es
+  | .bin _ _ => bin
+  | .arr _ vs => isDataList bin vs
+  | .hash _ es => allStrKeys es && isDataPairs bin es
   | _ => false
-def isDataList : List V → Bool
-  | [] => true | v :: vs => v.isData && isDataList vs
-def isDataPairs : List (V × V) → Bool
-  | [] => true | (k, v) :: es => k.isData && v.isData && isDataPairs es
+def isDataList (bin : Bool) : List V → Bool
+  | [] => true | v :: vs => v.isData bin && isDataList bin vs
+def isDataPairs (bin : Bool) : List (V × V) → Bool
+  | [] => true | (k, v) :: es => k.isData bin && v.isData bin && isDataPairs bin es
 end
 
 /-- the values the round trip is claimed for under configuration `c` -/
-def Frag (c : Cfg) (v : V) : Prop := v.noRes = true ∧ (c.rich = false → v.isData = true)
-def FragList (c : Cfg) (vs : List V) : Prop := noResList vs = true ∧ (c.rich = false → isDataList vs = true)
-def FragPairs (c : Cfg) (es : List (V × V)) : Prop := noResPairs es = true ∧ (c.rich = false → isDataPairs es = true)
+def Frag (c : Cfg) (v : V) : Prop := v.noRes = true ∧ (c.rich = false → v.isData c.bin = true)
+def FragList (c : Cfg) (vs : List V) : Prop := noResList vs = true ∧ (c.rich = false → isDataList c.bin vs = true)
+def FragPairs (c : Cfg) (es : List (V × V)) : Prop := noResPairs es = true ∧ (c.rich = false → isDataPairs c.bin es = true)
 
 theorem isObjType_ne (tn : String) (h : isObjType tn = true) :
     tn ≠ "Hash" ∧ tn ≠ "Sensitive" ∧ tn ≠ "Default" := by
   simp only [isObjType, objTypes, List.contains_cons, List.contains_nil, Bool.or_false, Bool.or_eq_true, beq_iff_eq] at h
-  rcases h with rfl | rfl | rfl <;> decide
+  rcases h with rfl | rfl | rfl | rfl <;> decide
 
 /-- the leaf-codec hypothesis for Binary: decoding inverts encoding -/
 def B64Ok : Prop := ∀ bs, unb64 (b64 bs) = some bs
@@ -259,10 +266,23 @@ theorem plain_trip (c : Cfg) (hb : B64Ok) : ∀ (v : V), Frag c v → Trip c v
         cases h : c.rich with
         | true => rfl
         | false => have := hf.2 h; simp [V.isData] at this
+      have hcan : canonLeaf k enc = true := by simpa [V.noRes] using hf.1
       obtain ⟨h1, h2, h3, h4, h5, h6⟩ := typeName_codec k
       refine trip_scalar c _ (.hash [(.str "__ptype", .str k.typeName), (.str "__pvalue", .str enc)]) ?_ ?_ rfl (fun _ => rfl)
       · simp only [plain, hr, if_true]; exact typed_data _ _ (.str enc) (by simp [dataOf, scD])
-      · simp only [cnv, typed_lookup, typed_pvalue, if_neg h1, if_neg h2, if_neg h3, decodeLeafD, if_neg h4, h5, h6, V.abs]
+      · by_cases hts : k.typeName = "Timespan"
+        · -- the real Timespan codec: the payload parses and prints back to itself
+          have hk : k = .ts := by cases k <;> simp [Kind.typeName] at hts <;> rfl
+          subst hk
+          simp only [canonLeaf, canonSpan] at hcan
+          split at hcan
+          · rename_i ns hp
+            have he : printSpan ns = enc := by simpa using hcan
+            simp only [cnv, typed_lookup, typed_pvalue, if_neg h1, if_neg h2, if_neg h3, decodeLeafD, if_neg h4, if_pos hts,
+              hp, he, V.abs, Kind.canon]
+          · cases hcan
+        · simp only [cnv, typed_lookup, typed_pvalue, if_neg h1, if_neg h2, if_neg h3, decodeLeafD, if_neg h4, if_neg hts,
+            h5, h6, V.abs]
   | .bin id bs, hf => by
       cases hbin : c.bin with
       | true =>
@@ -271,7 +291,7 @@ theorem plain_trip (c : Cfg) (hb : B64Ok) : ∀ (v : V), Frag c v → Trip c v
         have hr : c.rich = true := by
           cases h : c.rich with
           | true => rfl
-          | false => have := hf.2 h; simp [V.isData] at this
+          | false => have := hf.2 h; simp [V.isData, hbin] at this
         refine trip_scalar c _ (.hash [(.str "__ptype", .str "Binary"), (.str "__pvalue", .str (b64 bs))]) ?_ ?_ rfl (fun _ => rfl)
         · simp only [plain, hbin, hr, if_true, Bool.false_eq_true, if_false]
           exact typed_data _ _ (.str (b64 bs)) (by simp [dataOf, scD])
@@ -360,7 +380,7 @@ theorem plainPairs_trip (c : Cfg) (hb : B64Ok) : ∀ (es : List (V × V)), FragP
   | (k, v) :: es, hf => by
       have hn : (k.noRes = true ∧ v.noRes = true) ∧ noResPairs es = true := by
         have := hf.1; simpa [noResPairs] using this
-      have hd : c.rich = false → (k.isData = true ∧ v.isData = true) ∧ isDataPairs es = true := by
+      have hd : c.rich = false → (k.isData c.bin = true ∧ v.isData c.bin = true) ∧ isDataPairs c.bin es = true := by
         intro h; have := hf.2 h; simpa [isDataPairs] using this
       obtain ⟨dk, hk1, hk2, hk3, hk4⟩ := plain_trip c hb k ⟨hn.1.1, fun h => (hd h).1.1⟩
       obtain ⟨dv, hv1, hv2, _, _⟩ := plain_trip c hb v ⟨hn.1.2, fun h => (hd h).1.2⟩
